@@ -50,3 +50,22 @@ def _f19(case, failure):
     output has blanks after the previous statement's ';' which a second application (where they belong to the
     previous statement) strips: not a fixed point, whitespace only."""
     return (failure.clause, failure.sig) == ('idempotent', 'blanks-after-semicolon') and bool((case.get('opts') or {}).get('strip_comments'))
+
+
+@classifier('f8b_comment_newline_blank')
+def _f8b(case, failure):
+    """F8b: strip_whitespace turns the line break that follows (or separates) comments inside a Comment group into a
+    blank and keeps the blank outside the group too: two blanks next to a comment, and a second application differs.
+    Attributed only when the script has a line break next to a comment and the failure is a whitespace run next to a
+    comment or the fixed-point clause."""
+    return (failure.clause, failure.sig) in {('nf1-run', 'comment:newline_after_comment_in_gap'),
+                                             ('nf1-fixed-point', 'changed:newline_after_comment_in_gap'),
+                                             ('nf1-edges', 'trail:newline_after_comment_in_gap')}
+
+
+@classifier('f9b_operator_after_comment_line')
+def _f9b(case, failure):
+    """F9b: use_space_around_operators is not a fixed point when an operator starts the line after a comment: the first
+    pass sees 'comment, blank, newline, operator' (newline = whitespace, nothing inserted) and the serializer strips the
+    blank; on the second pass the newline belongs to the Comment group, so a blank is inserted before the operator."""
+    return (failure.clause, failure.sig) == ('nf2-fixed-point', 'changed:comment_line_end_before_operator')
